@@ -97,7 +97,9 @@ let run path =
       (* the two connection-wide links of the end-to-end composition (coq/Broker/EndToEnd.v, Props/C15_e2e.v) *)
       "c15_forward_link", EndToEnd.forward_link; "c15_arrival_link", EndToEnd.arrival_link;
       (* conservation ledger of dequeued QoS>0 messages (coq/Broker/ConnSpec7.v, Props/C08_ledger.v) *)
-      "c08_ledger", ConnSpec7.c08_ledger ] in
+      "c08_ledger", ConnSpec7.c08_ledger;
+      (* the hand-over of the will as the end-to-end composition needs it (coq/Broker/WillE2E.v, Props/C12_e2e.v) *)
+      "c12_will_link", WillE2E.will_link ] in
     L.iter (fun (name, f) ->
       if not (f pevs) then begin
         (* shortest failing prefix = position of the offending event *)
